@@ -156,6 +156,12 @@ func main() {
 				req.Header.Set("X-API-Key", "k1")
 			case "wrong":
 				req.Header.Set("X-API-Key", "bad")
+			case "samelen":
+				req.Header.Set("X-API-Key", "k2")
+			case "prefix":
+				req.Header.Set("X-API-Key", "k")
+			case "upper":
+				req.Header.Set("X-API-Key", "K1")
 			}
 			rec := httptest.NewRecorder()
 			h.ServeHTTP(rec, req)
